@@ -84,7 +84,19 @@ def run(ctx, replay=None):
             ctx.count('maxlag', repr(maxlag))
             ctx.count('unit_square', unit)
             try:
-                V = Variogram(c, v, **kw)
+                src_kind = rng.choice(['coords', 'coords', 'coords', 'samples', 'minkowski'])
+                ctx.count('source_space', src_kind)
+                case['source_space'] = src_kind
+                if src_kind == 'samples':
+                    V = Variogram(c, v, samples=0.6, **kw)
+                elif src_kind == 'minkowski':
+                    from skgstat import MetricSpace
+                    V = Variogram(MetricSpace(c, 'minkowski', dist_metric_kwargs={'p': 1.2}), v, dist_func='minkowski', **kw)
+                else:
+                    V = Variogram(c, v, **kw)
+                if rng.random() < 0.3:
+                    V.n_lags = kw['n_lags'] + rng.choice([2, 5])          # a setting changed after construction is a setting of the source
+                    case['n_lags_assigned'] = int(V.n_lags)
                 if 'obs_sigma' in kw and V._kwargs.get('obs_sigma') != kw['obs_sigma']:
                     ctx.problem('oracle', 'the propagation run at construction removed / changed the obs_sigma setting of the source', case, {'passed': kw['obs_sigma'], 'held': V._kwargs.get('obs_sigma')},
                                 {'what': 'source-changed', 'field': 'kwargs'})
